@@ -273,24 +273,20 @@ example : -- non-vacuous: two tenants, a restart in the middle, a clock race at 
   decide
 end Usq
 
-/-! ## index aliases (pkg/virtualtable) — with patches c20-1 (the alias files of org 0 are read at restart)
-and c20-2 (an emptied inner map is dropped) all three statements hold at full strength; the behaviour
-before the patches (`stepOld`) is refuted by the counterexample theorems -/
+/-! ## index aliases (pkg/virtualtable) — with patches c20-1 (the alias files of org 0 are read at restart),
+c20-2 (an emptied inner map is dropped) and c20-9 (the shutdown flush adds what an index' alias file lacks
+instead of writing the inverted relation) all three statements hold at full strength, graceful restarts
+included; the behaviour before the patches (`stepOld`, `stepOldFlush`) is refuted by the counterexample
+theorems -/
 section Alias
 open SigModel.KV.Alias
 
-/-- C20.K1 (aliases): for EVERY sequence of add / remove / get / list / resolve / restart on any tenants,
+/-- C20.K1 (aliases): for EVERY sequence of add / remove / get / list / resolve / restart / graceful restart on any tenants,
 every answer — including list and resolve, which are read from the in-memory inverse map
 `aliasToIndexNames` — is the documented one for the abstract keyed store (org, index) ↦ alias set, and
 `abs` commutes with every step. -/
 theorem kv_refines_spec_alias (ops : List Op) : Refines Spec.empty init ops := by
   have h := Lemmas.C20K.Alias.refines_of_memOk ops init Lemmas.C20K.Alias.memOk_init
-  rwa [Lemmas.C20K.Alias.abs_init] at h
-
-/-- the file side alone (`abs` = the alias files; answers of add / remove / get / restart) needs no
-invariant at all -/
-theorem kv_refines_spec_alias_files (ops : List Op) : RefinesFiles Spec.empty init ops := by
-  have h := Lemmas.C20K.Alias.refinesFiles_all ops init
   rwa [Lemmas.C20K.Alias.abs_init] at h
 
 /-- OLD behaviour (before patch c20-2) REFUTED: after the only index of an alias was removed,
@@ -300,7 +296,7 @@ theorem kv_refines_spec_alias_old_counterexample_removal :
     ¬ (∀ ops, RefinesOld Spec.empty init ops) := by
   intro h
   have h1 := h [.add 1 [105] [97], .remove 1 [105] [97], .list 1]
-  simp only [RefinesOld] at h1
+  simp only [RefinesOld, RefinesWith] at h1
   obtain ⟨_, _, _, _, h2, _⟩ := h1
   have h3 : (stepOld (stepOld (stepOld init (.add 1 [105] [97])).1 (.remove 1 [105] [97])).1 (.list 1)).2 = .amap [([97], [])] := by decide
   rw [h3] at h2
@@ -313,7 +309,7 @@ theorem kv_refines_spec_alias_old_counterexample_restart :
     ¬ (∀ ops, RefinesOld Spec.empty init ops) := by
   intro h
   have h1 := h [.add 0 [105] [97], .restart, .resolve 0 [97]]
-  simp only [RefinesOld] at h1
+  simp only [RefinesOld, RefinesWith] at h1
   obtain ⟨_, _, _, _, h2, _⟩ := h1
   have h3 : (stepOld (stepOld (stepOld init (.add 0 [105] [97])).1 .restart).1 (.resolve 0 [97])).2 = .target [] := by decide
   rw [h3] at h2
@@ -322,16 +318,53 @@ theorem kv_refines_spec_alias_old_counterexample_restart :
     decide⟩
   cases h4
 
-/-- C20.K2 (aliases): a restart at ANY position is the identity on the alias files (`abs`) and on the
-memory view (what list / resolve answer from). -/
-theorem reload_persist_id_alias (ops : List Op) :
-    abs (step (run init ops).1 .restart).1 = abs (run init ops).1 ∧
-    ∀ t a i, memView (step (run init ops).1 .restart).1 t a i ↔ memView (run init ops).1 t a i := by
-  refine ⟨rfl, ?_⟩
-  intro t a i
+/-- C20.K2 (aliases): a restart at ANY position — a plain one (`restart`) or one after a graceful shutdown
+(`graceful`: `FlushAliasMapToFile`, then a new process) — is the identity on the alias files (`abs`) and on
+the memory view (what list / resolve answer from). -/
+theorem reload_persist_id_alias (ops : List Op) (op : Op) (hop : op = .restart ∨ op = .graceful) :
+    abs (step (run init ops).1 op).1 = abs (run init ops).1 ∧
+    ∀ t a i, memView (step (run init ops).1 op).1 t a i ↔ memView (run init ops).1 t a i := by
   have hm := Lemmas.C20K.Alias.memOk_run ops init Lemmas.C20K.Alias.memOk_init
-  have hm2 := Lemmas.C20K.Alias.step_memOk hm .restart
-  exact (hm2.inverse t a i).trans (hm.inverse t a i).symm
+  have hm2 := Lemmas.C20K.Alias.step_memOk hm op
+  have habs := Lemmas.C20K.Alias.abs_step hm op
+  refine ⟨?_, fun t a i => ?_⟩
+  · rw [habs]; rcases hop with rfl | rfl <;> rfl
+  · have e1 := hm2.inverse t a i
+    have e2 := hm.inverse t a i
+    have hfv : Lemmas.C20K.Alias.fv (step (run init ops).1 op).1.files t i a ↔
+        Lemmas.C20K.Alias.fv (run init ops).1.files t i a := by
+      have := congrFun (congrFun habs t) i
+      rcases hop with rfl | rfl
+      · exact Iff.rfl
+      · simp only [specStep, abs] at this
+        unfold Lemmas.C20K.Alias.fv; rw [this]
+    exact e1.trans ((and_congr Iff.rfl hfv).trans e2.symm)
+
+/-- OLD behaviour (before patch c20-9) REFUTED: at graceful shutdown `FlushAliasMapToFile` wrote, for every
+alias, a file NAMED like the alias holding the INDEX names (`writeAliasFile(&alias, indexNames, org)`); the
+next start read it as the alias file of an index: the index name came back as an alias of an "index" named
+like the alias (and an index that really had that name lost its own aliases). -/
+theorem reload_persist_id_alias_old_counterexample_shutdown_flush :
+    ¬ (∀ ops t a i, memView (stepOldFlush (run init ops).1 .graceful).1 t a i ↔ memView (run init ops).1 t a i) := by
+  intro h
+  have h1 := (h [.add 0 [105] [97]] 0 [105] [97]).1 (by unfold memView; decide)
+  revert h1; unfold memView; decide
+
+/-- … and the refinement statement for that behaviour is refuted as well: after `add index i alias a`
+and a graceful restart, `i` resolved as an alias (of "index" `a`). -/
+theorem kv_refines_spec_alias_old_counterexample_shutdown_flush :
+    ¬ (∀ ops, RefinesOldFlush Spec.empty init ops) := by
+  intro h
+  have h1 := h [.add 0 [105] [97], .graceful, .resolve 0 [105]]
+  simp only [RefinesOldFlush, RefinesWith] at h1
+  obtain ⟨_, _, _, _, h2, _⟩ := h1
+  have h3 : (stepOldFlush (stepOldFlush (stepOldFlush init (.add 0 [105] [97])).1 .graceful).1 (.resolve 0 [105])).2
+      = .target [[97]] := by decide
+  rw [h3] at h2
+  have h4 := (h2 [97]).1 (by simp)
+  revert h4
+  simp only [specStep, Spec.has]
+  decide
 
 /-- OLD behaviour (before patch c20-1) REFUTED: the aliases of org 0 were gone from the memory view after
 a restart. -/
@@ -348,11 +381,12 @@ theorem tenant_frame_alias (st : St) (op : Op) (t : Nat) (ht : op.tenant = some 
     (∀ a i, memView (step st op).1 t' a i ↔ memView st t' a i) :=
   Lemmas.C20K.Alias.frame st op t ht t' hne
 
-example : -- non-vacuous run of the alias model: removal of the last index, restart with org 0 and org 1
+example : -- non-vacuous run of the alias model: removal of the last index, restart and graceful restart, orgs 0 and 1
     (run init [.add 0 [105] [97], .add 0 [106] [97], .resolve 0 [97], .remove 0 [105] [97], .remove 0 [106] [97],
-      .list 0, .add 0 [105] [98], .add 1 [105] [98], .restart, .resolve 0 [98], .resolve 1 [98], .get 0 [105]]).2 =
+      .list 0, .add 0 [105] [98], .add 1 [105] [98], .restart, .resolve 0 [98], .graceful, .resolve 1 [98],
+      .resolve 0 [105], .get 0 [105], .get 0 [98]]).2 =
     [.res .ok, .res .ok, .target [[105], [106]], .res .ok, .res .ok, .amap [], .res .ok, .res .ok, .restarted,
-      .target [[105]], .target [[105]], .names [[98]]] := by decide
+      .target [[105]], .gracefulRestarted, .target [[105]], .target [], .names [[98]], .names []] := by decide
 end Alias
 
 /-! ## lookup files (pkg/lookups) — one name space (the code has NO tenant dimension, so there is no
